@@ -361,8 +361,71 @@ func TestRequestRoundTrip(t *testing.T) {
 				fail(rt, "request", "TestRequestRoundTrip", canon, fmt.Sprintf("argument %d differs at %s\nbytes %q", i, d, request))
 				return
 			}
+			if d := genericBehind(paramType(f, i), gotArgs[i], so.Map); d != "" {
+				fail(rt, "request", "TestRequestRoundTrip", canon, fmt.Sprintf("argument %d: %s\nbytes %q", i, d, request))
+				return
+			}
 		}
 	})
+}
+
+// genericMaps walks a generically decoded value (what sits behind interface{}) and reports a map whose Go
+// type is not the one the decoding side's MapType option asks for.
+func genericMaps(v interface{}, mapOpt int) string {
+	want := reflect.TypeOf(map[interface{}]interface{}(nil))
+	if hio.MapType(mapOpt) == hio.MapTypeSIMap {
+		want = reflect.TypeOf(map[string]interface{}(nil))
+	}
+	switch x := v.(type) {
+	case map[interface{}]interface{}:
+		if reflect.TypeOf(x) != want {
+			return fmt.Sprintf("a map behind interface{} was decoded as %T, the codec's MapType option asks for %s", x, want)
+		}
+		for _, e := range x {
+			if d := genericMaps(e, mapOpt); d != "" {
+				return d
+			}
+		}
+	case map[string]interface{}:
+		if reflect.TypeOf(x) != want {
+			return fmt.Sprintf("a map behind interface{} was decoded as %T, the codec's MapType option asks for %s", x, want)
+		}
+		for _, e := range x {
+			if d := genericMaps(e, mapOpt); d != "" {
+				return d
+			}
+		}
+	case []interface{}:
+		for _, e := range x {
+			if d := genericMaps(e, mapOpt); d != "" {
+				return d
+			}
+		}
+	}
+	return ""
+}
+
+// genericBehind applies genericMaps to the parts of v that sit behind interface{} given its declared type.
+func genericBehind(declared reflect.Type, v interface{}, mapOpt int) string {
+	switch {
+	case declared == nil || v == nil:
+		return ""
+	case declared.Kind() == reflect.Interface:
+		return genericMaps(v, mapOpt)
+	case declared == reflect.TypeOf(map[string]interface{}(nil)):
+		for _, e := range v.(map[string]interface{}) {
+			if d := genericMaps(e, mapOpt); d != "" {
+				return d
+			}
+		}
+	case declared == reflect.TypeOf([]interface{}(nil)):
+		for _, e := range v.([]interface{}) {
+			if d := genericMaps(e, mapOpt); d != "" {
+				return d
+			}
+		}
+	}
+	return ""
 }
 
 type resultShape struct {
@@ -483,6 +546,10 @@ func TestResponseRoundTrip(t *testing.T) {
 				}
 				if d := eq(rs.vals[i], g); d != "" {
 					fail(rt, "response", "TestResponseRoundTrip", canon, fmt.Sprintf("result %d differs at %s\nbytes %q", i, d, response))
+					return
+				}
+				if d := genericBehind(f.Out[i], got[i], co.Map); d != "" {
+					fail(rt, "response", "TestResponseRoundTrip", canon, fmt.Sprintf("result %d: %s\nbytes %q", i, d, response))
 					return
 				}
 			}
